@@ -58,6 +58,8 @@ def scan_assumptions(text):
                    'external_fn_specification', 'external_type_specification', 'verifier::axiom', 'broadcast use',
                    'uninterp spec fn', 'uninterp'):
             if kw in s:
+                if kw == 'broadcast use' and '::' not in s:
+                    continue   # a lemma proved in this very file, switched on for the module: not an assumption
                 # name: the next fn / the bracketed path
                 name = ''
                 m = re.search(r'assume_specification\s*(?:<[^>]*>)?\s*\[([^\]]+)\]', s)
